@@ -155,12 +155,15 @@ type exch struct {
 	rx64     ntp.Time64
 }
 
-var recA = ev.New("c07/structure", "rapid state machine over handler + tx-timestamp update (verif hooks) with 3..200 client ids: requests with increasing, equal, decreasing and colliding receive times, interleaved citations, updates {kernel later, unreadable}; after every step map size == queue size <= 2^20, every few steps and at the end a full walk under the store mutex: 1..8 pairwise-distinct receive timestamps per client, recorded queue index == position, heap order of the ranking values, ranking value >= every stored receive timestamp, with equality (and equal to the most recent request) for clients whose requests arrived in timestamp order and lost nothing. One evaluation = one step. Non-trivial: sequence in which a client was re-ranked, an exchange was removed after a lost tx timestamp, or a client exceeded 8 exchanges; distinct by step-log hash")
+var recA = ev.New("c07/structure", "rapid state machine over handler + tx-timestamp update (verif hooks) with 3..200 client ids: requests with increasing, equal, decreasing and colliding receive times (per case 1 ns .. 500 s apart: tick of 1 ns, 1 us, 1 ms, 37 ms or 100 ms), interleaved citations, updates {kernel later, unreadable}; after every step map size == queue size <= 2^20, every few steps and at the end a full walk under the store mutex: 1..8 pairwise-distinct receive timestamps per client, recorded queue index == position, heap order of the ranking values, ranking value >= every stored receive timestamp, with equality (and equal to the most recent request) for clients whose requests arrived in timestamp order and lost nothing. One evaluation = one step. Non-trivial: sequence in which a client was re-ranked, an exchange was removed after a lost tx timestamp, or a client exceeded 8 exchanges; distinct by step-log hash")
 
 func TestPropStructure(t *testing.T) {
 	vt.Check(t, 2500, 25000, func(t *rapid.T) {
 		server.ResetV()
-		era := drawBase(t, 1000, 300_000)
+		// the case's time scale: one tick is 1 ns (requests nanoseconds apart), 1 us, 1 ms, 37 ms or 100 ms (requests of
+		// one client up to minutes apart: same second and half a second or more apart, different seconds, ...)
+		scale := rapid.SampledFrom([]int64{1, 1, 1000, 1_000_000, 37_000_000, 100_000_000}).Draw(t, "tick-ns")
+		era := drawBase(t, 1000*scale, 300_000*scale)
 		nc := rapid.OneOf(rapid.IntRange(3, 12), rapid.IntRange(3, 200)).Draw(t, "nclients")
 		clients := make([]string, nc)
 		for i := range clients {
@@ -171,7 +174,7 @@ func TestPropStructure(t *testing.T) {
 		ordered := map[string]bool{}          // requests in increasing rx order so far and nothing removed
 		count := map[string]int{}
 		var pending []exch
-		var tick int64 = 1000
+		var tick int64 = 1000 * scale
 		var log []string
 		labels := map[string]int{}
 		steps := 0
@@ -186,7 +189,7 @@ func TestPropStructure(t *testing.T) {
 				c := rapid.SampledFrom(clients).Draw(t, "client")
 				var rx int64
 				kind := rapid.SampledFrom([]string{"later", "later", "later", "equal", "earlier", "much-earlier"}).Draw(t, "rxkind")
-				tick += rapid.Int64Range(1, 5000).Draw(t, "tick")
+				tick += rapid.Int64Range(1, 5000).Draw(t, "tick") * scale
 				prev, seen := last[c]
 				switch {
 				case kind == "later" || !seen:
@@ -194,7 +197,7 @@ func TestPropStructure(t *testing.T) {
 				case kind == "equal":
 					rx = prev
 				case kind == "earlier":
-					rx = prev - rapid.Int64Range(1, 10).Draw(t, "back")
+					rx = prev - rapid.Int64Range(1, 10).Draw(t, "back")*rapid.SampledFrom([]int64{1, scale}).Draw(t, "back-unit")
 				default:
 					rx = rapid.Int64Range(0, tick).Draw(t, "rx")
 				}
@@ -280,6 +283,9 @@ func TestPropStructure(t *testing.T) {
 		}
 		if era != "2023" && tick >= beforeBoundary {
 			ls = append(ls, "history-crosses-era-boundary")
+		}
+		if scale >= 1_000_000 {
+			ls = append(ls, "requests-milliseconds-to-minutes-apart")
 		}
 		recA.Eval(len(labels) > 0, ev.Hash(fmt.Sprint(log)), func() any { return log[:min(len(log), 12)] }, ls...)
 		if steps > 1 {
